@@ -162,7 +162,9 @@ class ExcelInPython:
     def _find_error_in_list(self, flatten_list: List):
         for err_value in filter(lambda cell: cell in ['#NUM!', '#DIV/0!',
                                                       '#N/A', '#NAME?', '#NULL!',
-                                                      '#REF!', '#VALUE!'], flatten_list):
+                                                      '#REF!', '#VALUE!',
+                                                      # the error texts this runtime hands out itself
+                                                      '#ERROR!', '#DIV0!'], flatten_list):
             return err_value
 
     def _concat_arrays_values(self, list1: list, list2: list):
